@@ -21,19 +21,34 @@ method (`_setup` + the body translated by `tools/py2inf.py`, `Generated/Inferenc
    `potentials = mle(marginals)`, except on the early return `L == 0`, which leaves `marginals` unset likewise.
    `gen_solver_exits_every_loss`: the same at the level of the solver bodies for EVERY loss/gradient function.
    `gen_unset_marginals_query`: with `marginals` unset the generated `project` answers every query from the potentials.
-2. `gen_estimate_answers_valid` (engine MD, parameters read in exp-space, `α = LogOf K`: the oracle is literally the generated
-   `belief_propagation`, whose output cells are the plain values): every stored table is `total · marginal / Z` of ONE joint —
-   that of the stored potentials (C01E `gen_exact_inference_end_to_end`) — hence nonnegative, summing to the total, and any
-   two tables agree on shared attributes.  Its hypotheses on the RETURNED parameters (`PotsOK`, `Z ≠ 0`) are discharged in
-   `C10E.gen_estimate_answers_valid_closed` / `_nozeros` (cold or first call): `PotsOK` always; `Z > 0` when no structural
-   zero is declared; with declared zeros `Z ≠ 0` remains.
+2. `gen_estimate_answers_valid_of_pair` (exp-space reading `LogOf K`; NO solver run): for the model object built by the generated
+   `__init__` (any `Admissible` behaviour of the library contracts) and ANY potential vector `p` that is a family of nonnegative
+   tables over its cliques (`PotsOK`) with `Z ≠ 0`, the tables the GENERATED `belief_propagation` computes from `p` are
+   `total · marginal / Z` of ONE joint — the product of `p` (C01E `gen_exact_inference_end_to_end`) — hence nonnegative, summing
+   to the total, and any two agree on shared attributes (`E2ESem.tables_sum` / `tables_agree`).
 
-NOT proved here (open): for RDA / IG the semantic half "`belief_propagation(mle w) = w` for the `w` these solvers form".  The
-pieces are in place — `E2EGen.rda_inv` / `ig_inv` transport any property `R` of marginal vectors that the oracle's answers
-have and the averaging step preserves to the returned `w` (with `R` = `Coherent.Realisable` this is `C08.bp_realisable` +
-`C08.realisable_combination`, the weights being `2/(t+1)` resp. `igA`), and `C08.mle_roundtrip_preorder` applies to
-`self.cliques` of the generated `__init__` (`Admissible.dfs_cliques`) — but RDA / IG average PLAIN marginal vectors while
-the parameters are read in exp-space, so the run needs ONE scalar type carrying both readings (with `-inf`), for which
+How 1 and 2 combine, and what is NOT proved.  For every scalar instance — the `Float` run included — the returned marginals ARE
+`belief_propagation(returned potentials)` (1); at the exp-space instance `belief_propagation` of ANY potentials is the exact
+marginal family (2).  The bridge between a log-space run (`Float`, or a real log-space instance such as `realScalar`) and the
+exp-space reading is the scalar homomorphism `exp` (`add ↦ *`, `sub ↦ /` with the `−∞` rule, `lse ↦ Σ`).  No homomorphism lemma
+for `belief_propagation` between two scalar instances exists in `Proofs/`; the bridge is EXERCISED by the C08 correspondence run
+(`Float` instance of `bp` / `mle` / the MD run against the implementation), NOT PROVED.
+
+**Audit finding (independent audit, `audit/scratch/c10_vacuous.lean`), machine-checked here as `md_run_degenerate_at_LogOf`.**
+An earlier version stated `gen_estimate_answers_valid` (and `C10E.gen_estimate_answers_valid_closed` / `_nozeros`, clause 3 of
+`C10E.gen_estimate_zeros_end_to_end*`) about the object the generated `estimate(engine='MD')` returns AT THE SCALAR TYPE `LogOf K`.
+Those statements were VACUOUS: `Model/LogOf.lean` has `mul x _ := x`, `div x _ := x` (a log-space value times a scalar has no
+exp-space reading in a field), so at `LogOf K` the generated `_marginal_loss` is constantly `⟨1⟩`, `eq0 ⟨1⟩ = true`, and the
+generated mirror descent ALWAYS takes its `ans[0] == 0` early return: `marginals = none`, `potentials = theta0` of `_setup`.  The
+antecedent `g.marginals = some m` was never satisfiable (`md_marginals_never_stored_at_LogOf`).  They are DELETED; the solver is
+no longer run at `LogOf K` in any statement of this file.
+
+NOT proved here (open): (a) the `exp` bridge above; (b) for RDA / IG the semantic half "`belief_propagation(mle w) = w` for the
+`w` these solvers form".  The pieces are in place — `E2EGen.rda_inv` / `ig_inv` transport any property `R` of marginal vectors
+that the oracle's answers have and the averaging step preserves to the returned `w` (with `R` = `Coherent.Realisable` this is
+`C08.bp_realisable` + `C08.realisable_combination`, the weights being `2/(t+1)` resp. `igA`), and `C08.mle_roundtrip_preorder`
+applies to `self.cliques` of the generated `__init__` (`Admissible.dfs_cliques`) — but RDA / IG average PLAIN marginal vectors
+while the parameters are read in exp-space, so the run needs ONE scalar type carrying both readings (with `-inf`), for which
 neither `realisable_combination` nor the C01 theorems are proved yet.
 -/
 namespace PGM.C08E
@@ -294,71 +309,158 @@ theorem gen_unset_marginals_query {β : Type} [Scalar β] (g : GM α) (hm : g.ma
 
 end headline
 
-/-! ## 2. every stored table is `total · marginal / Z` of ONE joint (engine MD, exp-space reading of the parameters) -/
+/-! ## 2. `belief_propagation` of ANY exp-space potentials is the exact marginal family of ONE joint (no solver run) -/
 section valid
 variable {K : Type} [Field K] [LinearOrder K] [IsStrictOrderedRing K] {V Cb : Type}
 
-/-- **THE ANSWERS OF THE RETURNED MODEL ARE ONE VALID DISTRIBUTION (engine MD, generated code end to end).**  At the
-exp-space reading `LogOf K` the oracle is literally the generated `belief_propagation`, whose output cells are the plain
-values.  For the object `g` the generated `estimate(engine='MD')` returns — every iteration count, every exit on which
-`marginals` is stored, every admissible behaviour of the library contracts — with parameters that are nonnegative tables over
-its cliques (`hpots`) and `Z ≠ 0`: there is ONE joint, the product of the stored potentials, such that
+/-- **THE TABLES `belief_propagation` COMPUTES FROM ANY POTENTIALS ARE ONE VALID DISTRIBUTION (generated `__init__` + generated
+`belief_propagation`, exp-space reading `LogOf K`, independent of the solver run).**  Let `g` be any model record — only its
+constructor arguments `domain`, `inCliques`, `elim`, `total` are read: `gmOf nx g` is the object the generated
+`GraphicalModel.__init__` builds from them, `bpO nx g` the generated `belief_propagation` on its fields — with a well-formed
+non-empty domain, cliques inside it and ANY admissible behaviour of the library contracts; let `p` be ANY potential vector that is
+a family of nonnegative tables over the cliques of the generated model (`PotsOK`) with `Z ≠ 0`.  Then there is ONE joint, the
+product of `p`, such that
 
-1. every stored clique table is `total · marginal_c / Z` of it (C01E `gen_exact_inference_end_to_end`), hence
+1. every table of `belief_propagation(p)` is `total · marginal_c / Z` of it (C01E `gen_exact_inference_end_to_end`), hence
 2. nonnegative (for a nonnegative total),
 3. summing to the model total, and
-4. any two stored tables, summed down to any attribute tuple `A` both contain, agree (both are `total · marginal_A / Z`). -/
-theorem gen_estimate_answers_valid (nx : Nx) (estT : List (Loss.Meas (LogOf K)) → LogOf K)
-    (logf : Factor (LogOf K) → Factor (LogOf K)) (topEigs : List (Loss.Meas (LogOf K)) → List (LogOf K))
-    (logger : V) (cbVal : Option Cb → V) (s : Est (LogOf K)) (a : Args (LogOf K) V Cb) (hMD : a.engine = "MD")
-    (hd : s.cfg.domain.WF) (hne : s.cfg.domain.attrs ≠ [])
-    (hin : ∀ c ∈ inCliques s.cfg (measOf s a), c.Nodup ∧ ∀ x ∈ c, x ∈ s.cfg.domain.attrs)
-    (hadm : Admissible nx s.cfg.domain (inCliques s.cfg (measOf s a)) (modeOf s.cfg.elim_order)) :
-    ∃ g, (estimateG (gmC nx) estT (bpO nx) (mleO logf nx) topEigs logger cbVal s a).2.2 = some g ∧
-      g.domain = s.cfg.domain ∧
-      ∀ m, g.marginals = some m → PotsOK g.domain g.cliques g.potentials → partition g.domain g.potentials ≠ 0 →
-        (∀ c ∈ g.cliques, ∀ σ, g.domain.Valid σ →
-          ((m.get c).sem σ).v = g.total.v * marginal g.domain g.potentials c σ / partition g.domain g.potentials) ∧
-        (0 ≤ g.total.v → ∀ c ∈ g.cliques, ∀ σ, g.domain.Valid σ → 0 ≤ ((m.get c).sem σ).v) ∧
-        ((∀ p ∈ g.domain, 0 < p.2) → ∀ c ∈ g.cliques,
-          sumOver g.domain c (fun _ => 0) (fun τ => ((m.get c).sem τ).v) = g.total.v) ∧
-        (∀ c1 ∈ g.cliques, ∀ c2 ∈ g.cliques, ∀ A : List Attr, (∀ x ∈ A, x ∈ c1) → (∀ x ∈ A, x ∈ c2) →
-          ∀ σ, g.domain.Valid σ →
-          sumOver g.domain (c1.filter (fun x => !A.contains x)) σ (fun τ => ((m.get c1).sem τ).v)
-            = sumOver g.domain (c2.filter (fun x => !A.contains x)) σ (fun τ => ((m.get c2).sem τ).v)) := by
-  obtain ⟨g, h1, _, _, hcq, htot, ps⟩ := gen_estimate_returns_coherent_pair nx estT logf topEigs logger cbVal s a (Or.inl hMD)
-  have hdom : g.domain = s.cfg.domain := by rw [ps.same_object]; rfl
-  have hinc : g.inCliques = inCliques s.cfg (measOf s a) := by rw [ps.same_object]; rfl
-  have helim : g.elim = s.cfg.elim_order := by rw [ps.same_object]; rfl
-  refine ⟨g, h1, hdom, fun m hm hpots hZ => ?_⟩
-  have hbp : m = bpO nx g g.potentials := by
-    rcases ps.md hMD with ⟨_, hnone, _⟩ | ⟨_, hsome⟩
-    · rw [hnone] at hm; cases hm
-    · rw [hm] at hsome; exact Option.some.inj hsome
-  have hd' : g.domain.WF := hdom ▸ hd
-  have hne' : g.domain.attrs ≠ [] := hdom ▸ hne
-  have hin' : ∀ c ∈ g.inCliques, c.Nodup ∧ ∀ x ∈ c, x ∈ g.domain.attrs := by rw [hinc, hdom]; exact hin
-  have hadm' : Admissible nx g.domain g.inCliques (modeOf g.elim) := by rw [hinc, hdom, helim]; exact hadm
-  have hcliques := (gen_init_cliques_ok nx g.domain g.inCliques g.total (modeOf g.elim) hd' hne' hin' hadm').2.2
-  have key : ∀ c ∈ g.cliques, ∀ σ, g.domain.Valid σ →
-      ((m.get c).sem σ).v = g.total.v * marginal g.domain g.potentials c σ / partition g.domain g.potentials := by
-    intro c hc σ hσ
-    rw [hbp]
-    exact (gen_exact_inference_end_to_end nx g.domain g.inCliques (modeOf g.elim) g.total hd' hne' hin' hadm' g.potentials
-      (hcq ▸ hpots) hZ c (hcq ▸ hc) σ hσ).2
-  have hcl : ∀ c ∈ g.cliques, c.Nodup ∧ ∀ x ∈ c, x ∈ g.domain.attrs := fun c hc => hcliques c (hcq ▸ hc)
+4. any two tables, summed down to any attribute tuple `A` both contain, agree (both are `total · marginal_A / Z`).
+
+**How this combines with `gen_estimate_returns_coherent_pair`** (which gives `g.cliques = (gmOf nx g).cliques` and, on every exit of
+MD that stores them, `g.marginals = some (bpO nx g g.potentials)`): for EVERY scalar instance the returned marginals ARE
+`bp(returned potentials)`; at the EXP-SPACE instance `bp` of any potentials is the exact marginal family.  The bridge between a
+log-space run (`Float` / a real log-space instance) and the exp-space reading is the scalar homomorphism `exp`; it is exercised by
+the C08 correspondence run, NOT proved (no homomorphism lemma for `belief_propagation` between scalar instances exists).  The solver
+itself must not be run at `LogOf K`: see `md_run_degenerate_at_LogOf`. -/
+theorem gen_estimate_answers_valid_of_pair (nx : Nx) (g : GM (LogOf K))
+    (hd : g.domain.WF) (hne : g.domain.attrs ≠ [])
+    (hin : ∀ c ∈ g.inCliques, c.Nodup ∧ ∀ x ∈ c, x ∈ g.domain.attrs)
+    (hadm : Admissible nx g.domain g.inCliques (modeOf g.elim))
+    (p : CliqueVec (LogOf K)) (hpots : PotsOK g.domain (gmOf nx g).cliques p) (hZ : partition g.domain p ≠ 0) :
+    (∀ c ∈ (gmOf nx g).cliques, ∀ σ, g.domain.Valid σ →
+      (((bpO nx g p).get c).sem σ).v = g.total.v * marginal g.domain p c σ / partition g.domain p) ∧
+    (0 ≤ g.total.v → ∀ c ∈ (gmOf nx g).cliques, ∀ σ, g.domain.Valid σ → 0 ≤ (((bpO nx g p).get c).sem σ).v) ∧
+    ((∀ q ∈ g.domain, 0 < q.2) → ∀ c ∈ (gmOf nx g).cliques,
+      sumOver g.domain c (fun _ => 0) (fun τ => (((bpO nx g p).get c).sem τ).v) = g.total.v) ∧
+    (∀ c1 ∈ (gmOf nx g).cliques, ∀ c2 ∈ (gmOf nx g).cliques, ∀ A : List Attr, (∀ x ∈ A, x ∈ c1) → (∀ x ∈ A, x ∈ c2) →
+      ∀ σ, g.domain.Valid σ →
+      sumOver g.domain (c1.filter (fun x => !A.contains x)) σ (fun τ => (((bpO nx g p).get c1).sem τ).v)
+        = sumOver g.domain (c2.filter (fun x => !A.contains x)) σ (fun τ => (((bpO nx g p).get c2).sem τ).v)) := by
+  have hcl := (gen_init_cliques_ok nx g.domain g.inCliques g.total (modeOf g.elim) hd hne hin hadm).2.2
+  have key : ∀ c ∈ (gmOf nx g).cliques, ∀ σ, g.domain.Valid σ →
+      (((bpO nx g p).get c).sem σ).v = g.total.v * marginal g.domain p c σ / partition g.domain p :=
+    fun c hc σ hσ =>
+      (gen_exact_inference_end_to_end nx g.domain g.inCliques (modeOf g.elim) g.total hd hne hin hadm p hpots hZ c hc σ hσ).2
   refine ⟨key, fun hT c hc σ hσ => ?_, fun hsizes c hc => ?_, fun c1 hc1 c2 hc2 A hA1 hA2 σ hσ => ?_⟩
   · rw [key c hc σ hσ]
     exact div_nonneg (mul_nonneg hT (Bd.marginal_nonneg _ _ _ _ hpots.nonneg)) (Bd.partition_nonneg _ _ hpots.nonneg)
-  · rw [sumOver_congr_valid g.domain hd' c (fun _ => 0) _ _ (fun p hp => hsizes p hp) (fun τ hτ => key c hc τ hτ),
-      E2ESem.tables_sum g.domain hd' g.potentials _ _ c (hcl c hc).1 (hcl c hc).2]
+  · rw [sumOver_congr_valid g.domain hd c (fun _ => 0) _ _ (fun q hq => hsizes q hq) (fun τ hτ => key c hc τ hτ),
+      E2ESem.tables_sum g.domain hd p _ _ c (hcl c hc).1 (hcl c hc).2]
     field_simp
-  · rw [sumOver_congr_valid g.domain hd' _ σ _ _ hσ (fun τ hτ => key c1 hc1 τ hτ),
-      sumOver_congr_valid g.domain hd' _ σ _ _ hσ (fun τ hτ => key c2 hc2 τ hτ),
-      E2ESem.tables_agree g.domain hd' g.potentials _ _ c1 A (hcl c1 hc1).1 (hcl c1 hc1).2 hA1 σ,
-      E2ESem.tables_agree g.domain hd' g.potentials _ _ c2 A (hcl c2 hc2).1 (hcl c2 hc2).2 hA2 σ]
+  · rw [sumOver_congr_valid g.domain hd _ σ _ _ hσ (fun τ hτ => key c1 hc1 τ hτ),
+      sumOver_congr_valid g.domain hd _ σ _ _ hσ (fun τ hτ => key c2 hc2 τ hτ),
+      E2ESem.tables_agree g.domain hd p _ _ c1 A (hcl c1 hc1).1 (hcl c1 hc1).2 hA1 σ,
+      E2ESem.tables_agree g.domain hd p _ _ c2 A (hcl c2 hc2).1 (hcl c2 hc2).2 hA2 σ]
 
 end valid
+
+/-! ## audit: the generated MD run is DEGENERATE at the carrier `LogOf K` (why no statement above runs the solver there) -/
+section audit
+variable {K : Type} [Field K] [LinearOrder K] [IsStrictOrderedRing K] {V Cb : Type}
+
+theorem foldl_inv' {σ β : Type} (P : σ → Prop) (f : σ → β → σ) (l : List β) (s : σ) (h0 : P s)
+    (hs : ∀ s b, P s → P (f s b)) : P (l.foldl f s) := by
+  induction l generalizing s with
+  | nil => exact h0
+  | cons b bs ih => exact ih _ (hs s b h0)
+
+/-- at `LogOf K` (`mul x _ := x`, `add` = product of the carriers, `zero = ⟨1⟩`) the generated L2 `_marginal_loss` is constantly `⟨1⟩` -/
+theorem lossL2_const_at_LogOf (d : Dom) (cl : List Clique) (ms : List (Loss.Meas (LogOf K))) (mu : CliqueVec (LogOf K)) :
+    (InfG.marginalLossL2 d cl ms mu).1 = ⟨1⟩ := by
+  unfold InfG.marginalLossL2
+  apply foldl_inv' (fun st : LogOf K × CliqueVec (LogOf K) => st.1 = ⟨1⟩)
+  · rfl
+  · intro st c hst
+    apply foldl_inv' (fun st : LogOf K × CliqueVec (LogOf K) => st.1 = ⟨1⟩)
+    · exact hst
+    · intro st' it h'
+      show (⟨st'.1.v * 1⟩ : LogOf K) = ⟨1⟩
+      rw [h']; simp
+
+theorem sum_ones_at_LogOf (l : List (LogOf K)) (h : ∀ x ∈ l, x = ⟨1⟩) : Scalar.sum l = (⟨1⟩ : LogOf K) := by
+  unfold Scalar.sum
+  suffices ∀ (a : LogOf K), a = ⟨1⟩ → l.foldl Scalar.add a = ⟨1⟩ from this _ rfl
+  induction l with
+  | nil => intro a ha; exact ha
+  | cons b bs ih =>
+    intro a ha
+    apply ih (fun x hx => h x (List.mem_cons_of_mem _ hx))
+    rw [ha, h b (List.mem_cons_self ..)]
+    show (⟨1 * 1⟩ : LogOf K) = ⟨1⟩
+    simp
+
+/-- … and so is the generated L1 `_marginal_loss` -/
+theorem lossL1_const_at_LogOf (d : Dom) (cl : List Clique) (ms : List (Loss.Meas (LogOf K))) (mu : CliqueVec (LogOf K)) :
+    (InfG.marginalLossL1 d cl ms mu).1 = ⟨1⟩ := by
+  unfold InfG.marginalLossL1
+  apply foldl_inv' (fun st : LogOf K × CliqueVec (LogOf K) => st.1 = ⟨1⟩)
+  · rfl
+  · intro st c hst
+    apply foldl_inv' (fun st : LogOf K × CliqueVec (LogOf K) => st.1 = ⟨1⟩)
+    · exact hst
+    · intro st' it h'
+      show Scalar.add st'.1 (Scalar.sum _) = (⟨1⟩ : LogOf K)
+      rw [h', sum_ones_at_LogOf]
+      · show (⟨1 * 1⟩ : LogOf K) = ⟨1⟩; simp
+      · intro x hx
+        simp only [List.mem_map] at hx
+        obtain ⟨y, ⟨z, _, rfl⟩, rfl⟩ := hx
+        show Loss.absS (⟨1⟩ : LogOf K) = ⟨1⟩
+        unfold Loss.absS
+        show (if decide ((1:K) < 1) then (⟨1⟩ : LogOf K) else ⟨(1:K)⁻¹⟩) = ⟨1⟩
+        simp
+
+/-- the test `ans[0] == 0` succeeds on `⟨1⟩` (`LogOf`'s zero is the exp-space `1`) -/
+theorem eq0_one_at_LogOf : InfG.eq0 (⟨1⟩ : LogOf K) = true := by
+  show (!decide ((1:K) < 1) && !decide ((1:K) < (1:K)⁻¹)) = true
+  simp
+
+/-- **AUDIT WITNESS (machine-checked limitation): AT THE CARRIER `LogOf K` THE GENERATED `estimate(engine='MD')` ALWAYS TAKES THE
+EARLY RETURN `ans[0] == 0`.**  For every estimator, every measurement list, both metrics, every iteration count, every behaviour of
+the contracts: the returned object has `marginals` UNSET and its potentials are exactly those `_setup` stored.  Reason:
+`Model/LogOf.lean` has `mul x _ := x` and `div x _ := x` (a log-space value times a scalar has no exp-space reading in a field),
+so the generated `_marginal_loss` is constantly `⟨1⟩ = Scalar.zero`.  Consequently NO theorem about "the object the generated MD
+run returns at `LogOf K`" says anything about a real (log-space `Float`) run beyond `_setup`; the former
+`gen_estimate_answers_valid` / `C10E.gen_estimate_answers_valid_closed` / `_nozeros` / `C10E.gen_estimate_zeros_end_to_end*` were of
+that kind and have been removed (independent audit, `audit/scratch/c10_vacuous.lean`: `md_always_early`). -/
+theorem md_run_degenerate_at_LogOf (nx : Nx) (estT : List (Loss.Meas (LogOf K)) → LogOf K)
+    (logf : Factor (LogOf K) → Factor (LogOf K)) (topEigs : List (Loss.Meas (LogOf K)) → List (LogOf K))
+    (logger : V) (cbVal : Option Cb → V) (s : Est (LogOf K)) (a : Args (LogOf K) V Cb) (hMD : a.engine = "MD") :
+    ∃ g, (estimateG (gmC nx) estT (bpO nx) (mleO logf nx) topEigs logger cbVal s a).2.2 = some g ∧
+      g.marginals = none ∧ g.potentials = theta0 (gmC nx) s (measOf s a) := by
+  obtain ⟨g, h1, _, _, _, _, ps⟩ := gen_estimate_returns_coherent_pair nx estT logf topEigs logger cbVal s a (Or.inl hMD)
+  refine ⟨g, h1, ?_⟩
+  have hl : (lossOf s.cfg (freshGM (gmC nx) estT s a) (measOf s a)
+          (bpO nx (freshGM (gmC nx) estT s a) (freshGM (gmC nx) estT s a).potentials)).1 = ⟨1⟩ := by
+    unfold lossOf
+    cases s.cfg.metric
+    · exact lossL2_const_at_LogOf ..
+    · exact lossL1_const_at_LogOf ..
+  rcases ps.md hMD with ⟨_, h2, h3⟩ | ⟨h2, _⟩
+  · exact ⟨h2, h3⟩
+  · rw [hl, eq0_one_at_LogOf] at h2; cases h2
+
+/-- the antecedent `g.marginals = some m` of the removed theorems is NEVER satisfied (`answers_valid_antecedent_false` of the audit) -/
+theorem md_marginals_never_stored_at_LogOf (nx : Nx) (estT : List (Loss.Meas (LogOf K)) → LogOf K)
+    (logf : Factor (LogOf K) → Factor (LogOf K)) (topEigs : List (Loss.Meas (LogOf K)) → List (LogOf K))
+    (logger : V) (cbVal : Option Cb → V) (s : Est (LogOf K)) (a : Args (LogOf K) V Cb) (hMD : a.engine = "MD")
+    (g : GM (LogOf K)) (hg : (estimateG (gmC nx) estT (bpO nx) (mleO logf nx) topEigs logger cbVal s a).2.2 = some g)
+    (m : CliqueVec (LogOf K)) : g.marginals ≠ some m := by
+  obtain ⟨g', hg', hn, _⟩ := md_run_degenerate_at_LogOf nx estT logf topEigs logger cbVal s a hMD
+  have : g' = g := Option.some.inj (hg'.symm.trans hg)
+  subst this; rw [hn]; exact fun h => by cases h
+
+end audit
 
 /-! ## non-vacuity: an estimator over the domain of C01E's example, two measured cliques, `elim_order=["a","c","b"]` -/
 section Example
@@ -374,14 +476,29 @@ def exArgs : Args (LogOf ℚ) Nat Nat :=
 /-- the clique list `_setup` hands to `GraphicalModel(..)` is the one of C01E's example … -/
 theorem ex_inCliques : inCliques exEst.cfg (measOf exEst exArgs) = exCl := by decide
 
-/-- … so the structural hypotheses of `gen_estimate_answers_valid` / `gen_estimate_zeros_end_to_end` hold: well-formed
-non-empty domain, measured cliques inside it, an admissible behaviour of every library contract -/
+/-- … so the structural hypotheses on the estimator's inputs used in C08E / C10E hold: well-formed non-empty domain, measured
+cliques inside it, an admissible behaviour of every library contract -/
 example : ValidEngine exArgs.engine ∧ exEst.cfg.domain.WF ∧ exEst.cfg.domain.attrs ≠ [] ∧
     (∀ c ∈ inCliques exEst.cfg (measOf exEst exArgs), c.Nodup ∧ ∀ x ∈ c, x ∈ exEst.cfg.domain.attrs) ∧
     Admissible exNx exEst.cfg.domain (inCliques exEst.cfg (measOf exEst exArgs)) (modeOf exEst.cfg.elim_order) := by
   refine ⟨Or.inl rfl, by decide, by decide, ?_, ?_⟩
   · rw [ex_inCliques]; decide
   · rw [ex_inCliques]; exact ex_admissible
+
+/-- a model record with the constructor arguments of C01E's example (`total = 100`, `elimination_order=["a","c","b"]`) -/
+def exGM : GM (LogOf ℚ) := ⟨exD, exCl, some exElim, [], ⟨100⟩, [], none⟩
+
+/-- `gen_estimate_answers_valid_of_pair` is NOT vacuous: all its hypotheses hold for `exGM` and the potentials `C01.exPots`
+(nonnegative tables over the two cliques of the generated model, `Z ≠ 0`), so its four clauses hold for the tables the generated
+`belief_propagation` computes from them -/
+example := gen_estimate_answers_valid_of_pair exNx exGM (by decide) (by decide) (by decide) ex_admissible
+  PGM.C01.exPots (ex_potsOK _) C01.exZ_ne
+
+/-- the degenerate run, concretely: on the example estimator the object returned at `LogOf ℚ` has no stored marginals -/
+example : ∃ g, (estimateG (gmC exNx) (fun _ => (⟨1⟩ : LogOf ℚ)) (bpO exNx) (mleO id exNx) (fun _ => []) (0 : Nat)
+      (fun (_ : Option Nat) => (0 : Nat)) exEst exArgs).2.2 = some g ∧ g.marginals = none :=
+  let ⟨g, h1, h2, _⟩ := md_run_degenerate_at_LogOf exNx _ id _ 0 _ exEst exArgs rfl
+  ⟨g, h1, h2⟩
 
 /-- the model the generated `_setup` builds on it has the two cliques of the generated `__init__` -/
 example : (freshGM (gmC exNx) (fun _ => (⟨1⟩ : LogOf ℚ)) exEst exArgs).cliques = [["a", "b"], ["b", "c"]] := by
